@@ -56,7 +56,7 @@ func atArgs(a1, a2, a3 string) []string {
 func sumArgs(a4, a5, a6 string) []string {
 	var args []string
 	if a4 != "_" {
-		args = append(args, "--summary", cliText(decLines(a4)))
+		args = append(args, "--summary="+strings.Join(decLines(a4), "\n"))
 	}
 	if a5 == "1" {
 		args = append(args, "--resume")
@@ -69,6 +69,20 @@ func sumArgs(a4, a5, a6 string) []string {
 
 func init() {
 	register("cmd-hist", func(a []string) string {
+		// VERIF_REPEAT=n: run the history n times from scratch; the outputs must be byte-identical
+		n, _ := strconv.Atoi(os.Getenv("VERIF_REPEAT"))
+		first := runHistory(a)
+		for i := 1; i < n; i++ {
+			if again := runHistory(a); again != first {
+				return "nondeterministic " + first
+			}
+		}
+		return first
+	})
+}
+
+func runHistory(a []string) string {
+	{
 		var cfg []string
 		if a[0] != "_" {
 			cfg = append(cfg, "default_rounding = "+a[0]+"m")
@@ -109,7 +123,7 @@ func init() {
 			case "stop":
 				args = append([]string{"stop"}, atArgs(s[6], s[7], s[8])...)
 				if s[9] != "_" {
-					args = append(args, "--summary", cliText(decLines(s[9])))
+					args = append(args, "--summary="+strings.Join(decLines(s[9]), "\n"))
 				}
 			case "create":
 				args = append([]string{"create"}, dateSelArgs(s[6])...)
@@ -117,12 +131,12 @@ func init() {
 					args = append(args, "--should="+s[7]+"m!")
 				}
 				if s[8] != "_" {
-					args = append(args, "--summary", strings.Join(decLines(s[8]), "\n"))
+					args = append(args, "--summary="+strings.Join(decLines(s[8]), "\n"))
 				}
 			case "pause":
 				args = []string{"pause"}
 				if s[6] != "_" {
-					args = append(args, "--summary", cliText(decLines(s[6])))
+					args = append(args, "--summary="+strings.Join(decLines(s[6]), "\n"))
 				}
 				if s[7] == "1" {
 					args = append(args, "--no-tags")
@@ -159,5 +173,5 @@ func init() {
 			out = append(out, status+hx(after)+valid+hx(showParse(prs, perrs)))
 		}
 		return strings.Join(out, " ")
-	})
+	}
 }
